@@ -170,3 +170,10 @@ Proof.
   split; [vm_compute; reflexivity|].
   vm_compute. lia.
 Qed.
+
+(* ---- the two conversions of src/si/time.rs that Model/Duration.v transcribes (Gen/BodySrc.v is regenerated on every run) ---- *)
+From Coq Require Import String.
+From UomV Require Import Gen.BodySrc Spec.BodyTie.
+Theorem c14_conversion_sources_are_what_the_model_transcribes :
+  body_pinned "duration_from_time"%string = true /\ body_pinned "time_from_duration"%string = true.
+Proof. split; vm_compute; reflexivity. Qed.
